@@ -166,6 +166,15 @@ func (env *Env) comp(e Expr) TV {
 				}
 			}
 		}
+		if id, ok := x.X.(EIdent); ok && env.lookup != nil {
+			if _, isVar := env.vars[id.Name]; !isVar {
+				if _, isLocal := env.lookup(id.Name); !isLocal {
+					if v, ok := env.lookup(id.Name + "." + x.Field); ok {
+						return v
+					}
+				}
+			}
+		}
 		base := env.comp(x.X)
 		return env.selectField(base, x.Field)
 	case EIndex:
